@@ -32,5 +32,14 @@ for rel in rels:
       from vf import astu
       nested['%s|%s' % (rel, q)] = [[k.qual for k in kids].index(q), len(astu.params(f.node)), len(kids)]
 out['__nested__'] = nested
+children = {}
+from vf.model import _direct_nested
+for rel in rels:
+  m = repo._load(rel)
+  for q, f in m._funcs.items():
+    kids = _direct_nested(f.node)
+    if kids:
+      children['%s|%s' % (rel, q)] = [[k.name, len(astu.params(k))] for k in kids]
+out['__children__'] = children
 json.dump(out, open(reference.PATH, 'w'), indent=0, sort_keys=True)
-print('rules: %d, units: %d, table: %d' % (len(out) - 2, sum(len(v['units']) for k, v in out.items() if not k.startswith('__')), len(table)))
+print('rules: %d, units: %d, table: %d' % (len(out) - 3, sum(len(v['units']) for k, v in out.items() if not k.startswith('__')), len(table)))
